@@ -7,6 +7,7 @@ from vlib.logixbench import CONFIGS, LogixScenario
 LEVEL = "exploration"
 SHARDS = {"quick": 8, "thorough": 16}
 TIMEOUT = {"quick": 900, "thorough": 3000}
+MIN_EVALUATIONS = {"quick": 12000, "thorough": 12000}  # fewer oracle evaluations than this means the workload collapsed: inconclusive
 RULE = ("read()/write() calls of 1-40 requests mixing VALID requests (judged as in C01/C02) with INVALID ones of exactly the classes the "
         "statement lists {unknown tag, unknown member, member of an atomic, index out of range, count out of range, unencodable value, "
         "too-short value list, misaligned BOOL-array write, controller error status forced by the target} at every position class (first/"
@@ -141,8 +142,27 @@ def run(ctx):
                     n = len(items)
                 stt = rng.choice([(0x0F, ()), (0x05, ()), (0xFF, (0x2107,)), (0x10, ()), (0x04, (0,))])
 
-                def inject(rq, loc, names=forced_names, stt=stt):
-                    return stt if loc.tag.full_name in names else None
+                # the error may hit every service for that tag, or only the k-th one (e.g. a middle fragment of a fragmented transfer)
+                def base_of(text):
+                    t_ = text.split("{")[0]
+                    parts = t_.split(".")
+                    b_ = parts[0] + "." + parts[1] if t_.startswith("Program:") and len(parts) > 1 else parts[0]
+                    return b_.split("[")[0]
+
+                def shares_tag(nm):
+                    return sum(1 for it in items if base_of(it.text) == nm) > 1
+                fire_at = {nm: (0 if shares_tag(nm) else rng.choice([0, 0, 1, 2, 2, 3])) for nm in forced_names}
+                seen_n, fired = {}, set()
+
+                def inject(rq, loc, names=forced_names, stt=stt, fire_at=fire_at, seen_n=seen_n, fired=fired):
+                    nm = loc.tag.full_name
+                    if nm not in names:
+                        return None
+                    seen_n[nm] = seen_n.get(nm, 0) + 1
+                    if fire_at[nm] in (0, seen_n[nm]):
+                        fired.add(nm)
+                        return stt
+                    return None
                 dev.inject_status = inject if forced_names else None
                 packets_before = sc.b.log.counts.get("connected-messages", 0)
                 if for_write:
@@ -182,6 +202,9 @@ def run(ctx):
                         continue
                     if bool(t) != (t.value is not None and t.error is None):
                         res.violation("truthiness-contract", f"bool({t!r:.160}) is {bool(t)}", w2)
+                    if isinstance(it, Bad) and it.cls == "forced-status" and it.tagname not in fired:
+                        res.dont_care("forced-status-did-not-fire")
+                        continue
                     if isinstance(it, Bad) and getattr(it, "only_no_exception", False):
                         res.dont_care("bit-out-of-range-outcome:" + ("truthy" if t else "falsy"))
                         continue
